@@ -2,7 +2,7 @@
    Statements only.  Generic over every commutative ring; instantiated at the reals. *)
 From Coq Require Import List Arith Ring_theory Reals RealField.
 Import ListNotations.
-From Flodym Require Import Base.ND Base.Env Np.Einsum Model.Dims Model.Array Proofs.ArrayLemmas Proofs.C01Proofs.
+From Flodym Require Import Base.ND Base.Env Np.Einsum Model.Dims Model.Array Proofs.ArrayLemmas Proofs.C01Proofs Proofs.PowProofs Proofs.SharesProofs.
 From Flodym Require Corr.C01.
 
 (* x * y  (and x / y with g = reciprocal): for ALL ranks, dimension subsets, storage orders, lengths, values *)
@@ -43,6 +43,26 @@ Theorem C01_power_keeps_base_dims :
   pow_like R rO rI radd rmul p x y = Ok r -> adims r = adims x.
 Proof. exact pow_keeps_dims. Qed.
 Print Assumptions C01_power_keeps_base_dims.
+
+(* x ** y by label: y is replicated along x's other dimensions, the power is taken entry by entry *)
+Theorem C01_power_by_label :
+  forall (R : Type) (rO rI : R) (radd rmul rsub : R -> R -> R) (ropp : R -> R),
+  ring_theory rO rI radd rmul rsub ropp eq ->
+  forall (p : R -> R -> R) (x y r : farr R) (e : env),
+  wf R x -> wf R y ->
+  (forall d, In d (adims x) -> memb (dletter d) (aletters R y) = true -> lookup (lsizes R y) (dletter d) = dlen d) ->
+  pow_like R rO rI radd rmul p x y = Ok r ->
+  in_range (lsizes R x) e (aletters R x) ->
+  adims r = adims x /\ den R rO r e = p (den R rO x e) (den R rO y e).
+Proof. exact pow_spec. Qed.
+Print Assumptions C01_power_by_label.
+
+(* the array a number is promoted to holds that number under every label *)
+Theorem C01_full_array_entries :
+  forall (R : Type) (rO : R) ds (c : R) e,
+  NoDup (letters ds) -> in_range (combine (letters ds) (dshape ds)) e (letters ds) -> den R rO (full R ds c) e = c.
+Proof. exact den_full. Qed.
+Print Assumptions C01_full_array_entries.
 
 (* a plain number behaves as an array of x's own dimensions filled with that number (also reflected) *)
 Theorem C01_number_is_full_array :
